@@ -16,7 +16,7 @@ func init() {
 		ID:      "C13",
 		Modules: []string{""},
 		Explanation: "Static rules on the v1 string classifier: (R13.1) regexp.MustCompile* is applied only to compile-time constants anywhere in the root module, so registering a value can never panic in the regexp compiler, and a value that is compiled is first passed through regexp.QuoteMeta; " +
-			"(R13.2) every Match pushed on a result queue has a Confidence that is the constant 1.0 or is dominated by a `> 0` test; (R13.3) the length pre-filter admits a candidate whose ratio equals the threshold (inclusive comparison), so exact copies are not dropped at threshold 1.0; (R13.6) result lists are sorted by a comparator that is a strict order on exact comparisons with Confidence as primary descending key (a tolerance makes equality intransitive); (R13.5) an entry point that normalises its text argument uses the raw text for nothing else; (R13.4) an exact occurrence found by the regular expression is reported with its byte range, never by way of token indices (an occurrence need not begin and end with a token). " +
+			"(R13.2) every Match pushed on a result queue has a Confidence that is the constant 1.0 or is dominated by a `> 0` test; (R13.3) the length pre-filter admits a candidate whose ratio equals the threshold (inclusive comparison), so exact copies are not dropped at threshold 1.0; (R13.7) duplicate removal compares a match's offset strictly with the (exclusive) end of an accepted range; (R13.6) result lists are sorted by a comparator that is a strict order on exact comparisons with Confidence as primary descending key (a tolerance makes equality intransitive); (R13.5) an entry point that normalises its text argument uses the raw text for nothing else; (R13.4) an exact occurrence found by the regular expression is reported with its byte range, never by way of token indices (an occurrence need not begin and end with a token). " +
 			"Necessary conditions only: exact Offset/Extent of the occurrence shortcut and the <= 1 bound are numeric behaviour and are not decided.",
 		Run: runC13,
 	})
@@ -124,6 +124,63 @@ func runC13(c *Ctx) {
 			c.R.Check(ok, "R13.6", core.ShortFn(site.Fn)+": the matches are sorted by a strict order with Confidence as primary key", p.Pos(site.Call.Pos()), why, why)
 		}
 		c.R.RequireMin("R13.6", "sorts of stringclassifier.Matches", n6, 1)
+	}
+
+	// R13.7 duplicate removal treats the range of a match as half open: Offset is compared strictly with Offset+Extent
+	if uq := p.Func(scPkg, "(Matches).uniquify"); c.R.Anchor(uq != nil, "stringclassifier.(Matches).uniquify") {
+		n7 := 0
+		for _, b := range uq.Blocks {
+			for _, in := range b.Instrs {
+				bo, ok := in.(*ssa.BinOp)
+				if !ok {
+					continue
+				}
+				// X op (a + b)  or  (a + b) op X  with a, b fields of one element
+				sum, other, mirrored := bo.Y, bo.X, false
+				if _, isAdd := sum.(*ssa.BinOp); !isAdd {
+					sum, other, mirrored = bo.X, bo.Y, true
+				}
+				add, isAdd := sum.(*ssa.BinOp)
+				if !isAdd || add.Op != token.ADD || !strings.HasSuffix(core.AP(other), ".Offset") {
+					continue
+				}
+				// the sum of two fields of one element (start + length of an accepted range)
+				fieldBase := func(v ssa.Value) ssa.Value {
+					switch x := v.(type) {
+					case *ssa.Field:
+						return x.X
+					case *ssa.UnOp:
+						if fa, ok := x.X.(*ssa.FieldAddr); ok {
+							return fa.X
+						}
+					}
+					return nil
+				}
+				if b1, b2 := fieldBase(add.X), fieldBase(add.Y); b1 == nil || b2 == nil || !sameExpr(b1, b2, 0) {
+					continue
+				}
+				op := bo.Op
+				if mirrored {
+					switch op {
+					case token.GTR:
+						op = token.LSS
+					case token.GEQ:
+						op = token.LEQ
+					case token.LSS:
+						op = token.GTR
+					case token.LEQ:
+						op = token.GEQ
+					}
+				}
+				if op != token.LSS && op != token.LEQ && op != token.GTR && op != token.GEQ {
+					continue
+				}
+				n7++
+				c.R.Check(op == token.LSS || op == token.GEQ, "R13.7", "uniquify: a match is contained in an accepted one only if it starts before that one's end (exclusive)", p.Pos(bo.Pos()),
+					"Offset is compared strictly with offset+extent", "the comparison with offset+extent is not strict: the extent is exclusive, so a verbatim copy that starts exactly where another reported match ends is removed as if it were contained in it")
+			}
+		}
+		c.R.RequireMin("R13.7", "comparisons with the end of an accepted range", n7, 1)
 	}
 
 	// R13.5 the raw unknown text is only ever normalised: every comparison, length and diff works on the normalised text
